@@ -697,7 +697,8 @@ ATTACH = {
             'cooler.fileops._is_cooler'],
     'C10': ['cooler.parallel.split', 'cooler.parallel.chunkgetter.__call__', 'cooler.parallel.apply_pipeline',
             'cooler.parallel.MultiplexDataPipe.pipe', 'cooler.parallel.MultiplexDataPipe.reduce', 'cooler.parallel.MultiplexDataPipe.run',
-            'cooler.parallel.MultiplexDataPipe.prepare', 'cooler.parallel.MultiplexDataPipe.__copy__'],
+            'cooler.parallel.MultiplexDataPipe.prepare', 'cooler.parallel.MultiplexDataPipe.__copy__',
+            'cooler.util.bedslice'],      # the CLI turns --blacklist regions into bin ids with it (masked bins of C10)
     'C11': ['cooler._balance._balance_genomewide', 'cooler._balance._balance_transonly', 'cooler.cli.balance.balance'],
     'C12': ['cooler.api.Cooler.pixels', 'cooler.api.bins'],
     'C13': ['cooler.create._create.write_pixels', 'cooler.create._ingest._validate_pixels', 'cooler.create._ingest.validate_pixels',
